@@ -4,6 +4,7 @@ from typing import Any, Dict, Mapping, Optional, Union
 
 from ..exc import InvalidValue, UnknownVariable
 from ..lang import ast as _ast
+from ..schema.scalars import SPECIFIED_SCALAR_TYPES
 from ..schema.types import (
     EnumType,
     GraphQLType,
@@ -73,7 +74,9 @@ def value_from_ast(
         return type_.get_value(node.value)
 
     if isinstance(type_, ScalarType):
-        if not isinstance(
+        # Custom scalars decide which literals they accept (validation lets
+        # through what their literal parser accepts).
+        if type_ in SPECIFIED_SCALAR_TYPES and not isinstance(
             node,
             (
                 _ast.IntValue,
